@@ -132,7 +132,7 @@ def cases(datasets, configs, schemes, flags=(1, 0), namings=("ints", "letters"),
                     for ks in kseeds:
                         out.append({"D": D, "naming": namings[(k // 2 + ci) % len(namings)], "sch": list(s),
                                     "cfg": cfg, "flag": f, "env": e, "kseed": ks + k, "entry": (k + ci) % 7,
-                                    "schemeform": (k // 3 + ci) % 4})
+                                    "schemeform": (k // 3 + ci) % 5})
     return out
 
 
